@@ -90,7 +90,7 @@ class FunctionTranslator:
                 raise Unsupported(f"{where}: nested function / class at line {n.lineno}")
             if isinstance(n, (ast.While, ast.With, ast.AsyncWith, ast.AsyncFor, ast.Global, ast.Nonlocal, ast.Await,
                               ast.ListComp, ast.SetComp, ast.DictComp, ast.GeneratorExp, ast.NamedExpr,
-                              ast.Import, ast.ImportFrom, ast.Match, ast.YieldFrom, ast.Slice)):
+                              ast.Import, ast.ImportFrom, ast.Match, ast.YieldFrom)):
                 raise Unsupported(f"{where}: {type(n).__name__} at line {getattr(n, 'lineno', '?')}")
         self.check_aliasing()
         self.tmp = 0
@@ -180,6 +180,8 @@ class FunctionTranslator:
             return f"(EConst (VQ ({f.numerator} # {f.denominator})%Q))"
         if isinstance(v, str):
             return f"(EConst (VStr {cstr(v)}))"
+        if v is Ellipsis:
+            return f"(ECall {cstr('$ellipsis')} [] [])"   # the constant `...` (a tagged value, see Interp.builtin)
         raise Unsupported(f"{self.where}: constant {v!r} at line {node.lineno}")
 
     def expr(self, e):
@@ -225,6 +227,11 @@ class FunctionTranslator:
             if any(k is None for k in e.keys):
                 raise Unsupported(f"{self.where}: dict unpacking at line {e.lineno}")
             return "(EDictLit " + clist([f"({self.expr(k)}, {self.expr(v)})" for k, v in zip(e.keys, e.values)]) + ")"
+        if isinstance(e, ast.Slice):
+            # a:b:c inside a subscript is by definition the object slice(a, b, c), missing parts None
+            none = "(EConst VNone)"
+            parts = [self.expr(x) if x is not None else none for x in (e.lower, e.upper, e.step)]
+            return f"(ECall {cstr('slice')} {clist(parts)} [])"
         if isinstance(e, ast.JoinedStr):
             parts = [self.expr(v.value) for v in e.values if isinstance(v, ast.FormattedValue)]
             return f"(ECall {cstr('$fstring')} {clist(parts)} [])"
